@@ -489,10 +489,19 @@ fn run(cx: &mut Ctx, prop: Prop) {
             let sentinel = rng.nonzero_bytes(13);
             let judge = Judge { prop, forms: &forms, sentinel, errs: Default::default() };
             let msg = rng.nonzero_bytes(len);
-            let nonce: [u8; 24] = rng.arr();
-            let key: [u8; 32] = rng.arr();
+            // mostly random nonces and keys; all-zero and all-0xff ones are legal too (the first value of a counter nonce)
+            let nonce: [u8; 24] = match (len + fam as usize) % 7 {
+                0 => [0u8; 24],
+                1 => [0xff; 24],
+                _ => rng.arr(),
+            };
+            let key: [u8; 32] = if (len + fam as usize) % 11 == 3 { [0u8; 32] } else { rng.arr() };
+            cx.cover("nonce_class", match (len + fam as usize) % 7 { 0 => "zeros", 1 => "ff", _ => "random" });
             let (spk, ssk) = na::box_seed_keypair(&rng.arr());
             let (rpk, rsk) = na::box_seed_keypair(&rng.arr());
+            // sealed boxes: in half of the cases the recipient publishes its key with bit 255 set (X25519 ignores the bit,
+            // the sealed-box nonce hashes the bytes as published)
+            let rpk = if fam == Family::Seal && len % 2 == 1 { let mut k = rpk; k[31] |= 0x80; k } else { rpk };
             // the X25519-per-call forms are exercised on the quick length set only
             let cheap_only = false;
             // the X25519-per-call families: quick length set in the quick tier, every length up to 80 in the thorough tier
